@@ -343,6 +343,153 @@ def specRegRead (d : Nat) (n : NodeId) (bufLen : Nat) (s : S F) : Option Bytes :
     | .none => .none
   | .none => .none
 
+/-! ### writes (successful ones): the state after the write -/
+
+/-- W1. Storing into a value-store slot. -/
+def slotSet (s : S F) (id : SlotId) (v : ValueData F) : S F :=
+  { s with vs := if id < s.vs.length then s.vs.set id v else s.vs }
+
+/-- the write semantics of referenced nodes, one level down -/
+structure SetSem (F : Type) where
+  int : NodeId → Int → S F → Option (S F)
+  float : NodeId → F → S F → Option (S F)
+  str : NodeId → Bytes → S F → Option (S F)
+  enum : NodeId → Int → S F → Option (S F)
+
+def SetSem.none (F : Type) : SetSem F :=
+  ⟨fun _ _ _ => .none, fun _ _ _ => .none, fun _ _ _ => .none, fun _ _ _ => .none⟩
+
+/-- W2. Writing an integer to a referenced node: integer kind as is, float kind converted,
+enumeration by value. -/
+def numSetInt (prev : SetSem F) (p : NodeId) (v : Int) (s : S F) : Option (S F) :=
+  if isIntKind cx p then prev.int p v s
+  else if isFloatKind cx p then prev.float p (cx.ops.i2f v) s
+  else if isEnumKind cx p then prev.enum p v s
+  else .none
+
+def numSetFloat (prev : SetSem F) (p : NodeId) (v : F) (s : S F) : Option (S F) :=
+  if isIntKind cx p then prev.int p (cx.ops.f2i v) s
+  else if isFloatKind cx p then prev.float p v s
+  else if isEnumKind cx p then prev.enum p (cx.ops.f2i v) s
+  else .none
+
+def sonSetInt (prev : SetSem F) (t : ImmOrPNode SlotId) (v : Int) (s : S F) : Option (S F) :=
+  match t with
+  | .imm id => some (slotSet s id (.int v))
+  | .pnode p => numSetInt cx prev p v s
+
+def sonSetFloat (prev : SetSem F) (t : ImmOrPNode SlotId) (v : F) (s : S F) : Option (S F) :=
+  match t with
+  | .imm id => some (slotSet s id (.float v))
+  | .pnode p => numSetFloat cx prev p v s
+
+/-- W3. pValueCopy fan-out: each copy in order, on the state the previous write left. -/
+def copiesSetInt (prev : SetSem F) (cs : List NodeId) (v : Int) (s : S F) : Option (S F) :=
+  match cs with
+  | [] => some s
+  | c :: cs => (numSetInt cx prev c v s).bind fun s' => copiesSetInt prev cs v s'
+
+def copiesSetFloat (prev : SetSem F) (cs : List NodeId) (v : F) (s : S F) : Option (S F) :=
+  match cs with
+  | [] => some s
+  | c :: cs => (numSetFloat cx prev c v s).bind fun s' => copiesSetFloat prev cs v s'
+
+/-- W4. `<Value>` / `<pValue>` (+ copies) / `<pIndex>` as write target. -/
+def vkSetInt (pv : ValSem F) (prev : SetSem F) (vk : ValueKind) (v : Int) (s : S F) : Option (S F) :=
+  match vk with
+  | .value id => some (slotSet s id (.int v))
+  | .pValue p cs => (numSetInt cx prev p v s).bind fun s' => copiesSetInt cx prev cs v s'
+  | .pIndex sel entries dflt =>
+    if isIntKind cx sel then (pv.int sel s).bind fun i => sonSetInt cx prev (pIndexSelect entries dflt i) v s
+    else .none
+
+def vkSetFloat (pv : ValSem F) (prev : SetSem F) (vk : ValueKind) (v : F) (s : S F) : Option (S F) :=
+  match vk with
+  | .value id => some (slotSet s id (.float v))
+  | .pValue p cs => (numSetFloat cx prev p v s).bind fun s' => copiesSetFloat cx prev cs v s'
+  | .pIndex sel entries dflt =>
+    if isIntKind cx sel then (pv.int sel s).bind fun i => sonSetFloat cx prev (pIndexSelect entries dflt i) v s
+    else .none
+
+/-- W5. Writing `buf` to a register: the buffer has exactly the register's length, the
+bytes go to the effective address through a plain port. -/
+def regWriteBytes (pv : ValSem F) (rb : RegBase) (buf : Bytes) (s : S F) : Option (S F) :=
+  (immInt cx pv rb.length s).bind fun l =>
+    if 0 ≤ l ∧ buf.length = l.toNat then
+      (addrSum cx pv rb.addrs 0 s).bind fun a =>
+        match cx.graph rb.port with
+        | some (.port _ false) => (s.dev.write a buf).map fun d => { s with dev := d }
+        | _ => .none
+    else .none
+
+/-- the reference write semantics one level up -/
+def setStep (pv : ValSem F) (prev : SetSem F) : SetSem F where
+  int n v s :=
+    match cx.graph n with
+    | some (.integer _ vk _ _ _) => vkSetInt cx pv prev vk v s                          -- W4
+    | some (.intReg rb sign endian) =>                                                   -- W6 IntReg
+      (immInt cx pv rb.length s).bind fun l =>
+        if 0 ≤ l then
+          (resOpt (cx.ops.bytesFromInt v l.toNat endian sign)).bind fun buf => regWriteBytes cx pv rb buf s
+        else .none
+    | some (.maskedIntReg rb mask sign endian) =>                                        -- W7 MaskedIntReg
+      (regBytes cx pv rb s).bind fun bs =>
+      (resOpt (cx.ops.intFromSlice bs endian sign)).bind fun old =>
+      (immInt cx pv rb.length s).bind fun l =>
+      (resOpt (cx.ops.maskedValue cx.profile mask old v (asUsize l) endian sign)).bind fun new =>
+        if 0 ≤ l then
+          (resOpt (cx.ops.bytesFromInt new l.toNat endian sign)).bind fun buf => regWriteBytes cx pv rb buf s
+        else .none
+    | _ => .none
+  float n v s :=
+    match cx.graph n with
+    | some (.float _ vk _ _ _) => vkSetFloat cx pv prev vk v s
+    | some (.floatReg rb endian) =>                                                      -- W8 FloatReg
+      (immInt cx pv rb.length s).bind fun l =>
+        if 0 ≤ l then
+          (resOpt (cx.ops.bytesFromFloat v l.toNat endian)).bind fun buf => regWriteBytes cx pv rb buf s
+        else .none
+    | _ => .none
+  str n v s :=
+    match cx.graph n with
+    | some (.string _ (.imm id)) => some (slotSet s id (.str v))                        -- W9 String
+    | some (.string _ (.pnode p)) => if isStrKind cx p then prev.str p v s else .none
+    | some (.stringReg rb) =>                                                            -- W10 StringReg
+      (immInt cx pv rb.length s).bind fun l =>
+        if v.all (· < 128) ∧ ¬ v.any (· == 0) ∧ 0 ≤ l ∧ v.length ≤ l.toNat then
+          regWriteBytes cx pv rb (v ++ List.replicate (l.toNat - v.length) 0) s
+        else .none
+    | _ => .none
+  enum n v s :=
+    match cx.graph n with
+    | some (.enumeration _ entries value) =>                                             -- W11 Enumeration
+      match findEntryByValue cx entries v with
+      | .ok (some _) => sonSetInt cx prev value v s      -- only declared values
+      | _ => .none
+    | _ => .none
+
+/-- the reference write semantics at reference depth `d` -/
+def setSem : Nat → SetSem F
+  | 0 => SetSem.none F
+  | d + 1 => setStep cx (valSem cx d) (setSem d)
+
+/-- W12. Boolean write, W13. command execute, W14. raw register write. -/
+def specBoolSet (d : Nat) (n : NodeId) (b : Bool) (s : S F) : Option (S F) :=
+  match cx.graph n with
+  | some (.boolean _ value onV offV) => sonSetInt cx (setSem cx d) value (if b then onV else offV) s
+  | _ => .none
+def specCmdExecute (d : Nat) (n : NodeId) (s : S F) : Option (S F) :=
+  match cx.graph n with
+  | some (.command _ value cmdValue) =>
+    (sonInt cx (valSem cx d) cmdValue s).bind fun v => sonSetInt cx (setSem cx d) value v s
+  | _ => .none
+def specRegWrite (d : Nat) (n : NodeId) (data : Bytes) (s : S F) : Option (S F) :=
+  match cx.graph n with
+  | some nd => match nd.regBase? with
+    | some rb => regWriteBytes cx (valSem cx d) rb data s
+    | .none => .none
+  | .none => .none
+
 /-- graphs inside the scope of this reference semantics: no converter / swiss-knife nodes -/
 def NoFormulaNodes : Prop :=
   ∀ n, match cx.graph n with
